@@ -53,8 +53,9 @@ class _Acc:
 
     def merge(self, findings: dict[str, Any], stream: str) -> None:
         for key, e in findings.items():
-            d = self.by_key.setdefault(key, {"n": 0, "examples": []})
+            d = self.by_key.setdefault(key, {"n": 0, "examples": [], "streams": {}})
             d["n"] += e["n"]
+            d["streams"][stream] = d["streams"].get(stream, 0) + e["n"]
             for w in e["examples"]:
                 if len(d["examples"]) < 3:
                     w = dict(w)
@@ -62,8 +63,10 @@ class _Acc:
                     d["examples"].append(w)
 
     def add(self, key: str, witness: dict[str, Any]) -> None:
-        d = self.by_key.setdefault(key, {"n": 0, "examples": []})
+        d = self.by_key.setdefault(key, {"n": 0, "examples": [], "streams": {}})
         d["n"] += 1
+        st = str(witness.get("stream", "parent"))
+        d["streams"][st] = d["streams"].get(st, 0) + 1
         if len(d["examples"]) < 3:
             d["examples"].append(witness)
 
@@ -314,14 +317,19 @@ def run(ctx: common.Ctx) -> None:
             for g, cases in sorted(trans.items()):
                 step = max(1, len(cases) // cap)
                 pick = cases[::step][:cap]
-                for k in range(0, len(pick), 20):
-                    et.append({"fn": FN + "explain_many", "args": {"src_dir": src, "law": "transitivity", "cases": pick[k:k + 20]}})
+                # triples inside the depth-1 universe first (they do not depend on the seed), all of them
+                inner = [c for c in cases if max(c) < n1][:400]
+                pick = inner + [c for c in pick if max(c) >= n1]
+                for tag, sel in (("P2:transitivity(depth1 universe)", inner), ("P2:transitivity(with deep types)", pick[len(inner):])):
+                    for k in range(0, len(sel), 20):
+                        et.append({"fn": FN + "explain_many", "_stream": tag,
+                                   "args": {"src_dir": src, "law": "transitivity", "cases": sel[k:k + 20]}})
             skipped = n_bad - sum(len(t["args"]["cases"]) for t in et)
             ctx.extra["P2"]["violating_triples_not_individually_classified"] = skipped
             for t, r in pool.imap(et, timeout=900):
                 if bad(t, r):
                     continue
-                acc.merge(r["res"]["findings"], "P2:matrix-transitivity")
+                acc.merge(r["res"]["findings"], t["_stream"])
                 if r["res"]["not_confirmed"]:
                     # recorded answers said violated, a fresh evaluation says not: the answers depend on history
                     acc.add("cache-dependence:is_subtype:transitivity-not-reproducible",
@@ -450,6 +458,7 @@ def run(ctx: common.Ctx) -> None:
                 fam = key.split(":")[0]
                 ctx.violation(key, f"{WHAT.get(fam, fam)} [{_one_line(w)}]", w)
     ctx.extra["violations_by_key"] = {k: e["n"] for k, e in sorted(acc.by_key.items())}
+    ctx.extra["violations_by_key_and_stream"] = {k: e["streams"] for k, e in sorted(acc.by_key.items())}
     ctx.floor_nontrivial = int((n1 * n1 - n1) * 0.5 + n_pairs * 0.25 + n_triples * 0.25)
     ctx.floor_evaluations = int((n1 * n1 * 12 + n_pairs * 12 + n_triples * 6) * 0.5)
 
